@@ -29,7 +29,7 @@ RULE = ("DAG shapes x deviations x targets x hash permutations; an execution is 
         "traces = complete dr.run executions")
 ASSUMPTIONS = ["CPython set iteration order for <= 4 elements with distinct hashes < 8 is slot order (self-checked every run)"]
 BOUNDS = {"quick": {"max_nodes": 3, "max_dev": 2, "plus": "all 4-node DAGs with required edges only, <= 1 deviation"}, "thorough": {"max_nodes": 4, "max_dev_n3": 2, "max_dev_n4": 1}}
-CAP_S = {"quick": 150, "thorough": 2400}
+CAP_S = {"quick": 300, "thorough": 5400}
 
 EDGE = ["none", "req", "g1", "g2", "opt"]
 ALTS = ["none", "skip", "error", "disabled", "seed", "seednone", "seedzero"]
